@@ -140,7 +140,7 @@ def getAt (sz : Sizer) (values : List (Bytes × Bytes)) (idx : Nat) : Res (List 
         else match sz.crsrs[idx]? with
           | none => .panic "GetAt:crsrs[idx]"
           | some c =>
-            if c > v.length then .panic "GetAt:v[c:]"
+            if c > v.length then .err "no-more-values"      -- bounds check added by the fix: commit
             else
               let v := v.drop c
               let v := match indexOf 0x0a v with
@@ -219,20 +219,22 @@ def reset (pg : Page) : Page :=
   { pg with sink := none, extra := [], cacheMap := [], menu := pg.menu.reset,
             sizer := pg.sizer.map Sizer.reset }
 
+/-- a second, different zero-size symbol on the same page -/
+def sinkConflict (pg : Page) (key : Bytes) (l : Nat) : Bool :=
+  l = 0 && (match pg.sink with | some s => s != key | none => false)
+
 /-- `Map(key)` -/
-def map (pg : Page) (ca : Cache Bytes) (key : Bytes) : Res Page := do
-  let v ← match ca.get key with
-    | .ok v => Res.ok v
-    | _ => .err "map-get"
-  let l ← match ca.reservedSize key with
-    | .ok l => Res.ok l
+def map (pg : Page) (ca : Cache Bytes) (key : Bytes) : Res Page :=
+  match ca.get key with
+  | .ok v =>
+    match ca.reservedSize key with
+    | .ok l =>
+      if sinkConflict pg key l then .err "sink-already-set"
+      else .ok { pg with sink := if l = 0 then some key else pg.sink,
+                         cacheMap := AList.set key v pg.cacheMap,
+                         sizer := pg.sizer.map (·.set key l) }
     | _ => .err "map-size"
-  let pg ← if l = 0 then
-      (match pg.sink with
-        | some s => if s ≠ key then Res.err "sink-already-set" else .ok { pg with sink := some key }
-        | none => .ok { pg with sink := some key })
-    else .ok pg
-  pure { pg with cacheMap := AList.set key v pg.cacheMap, sizer := pg.sizer.map (·.set key l) }
+  | _ => .err "map-get"
 
 /-- `split`: (values without sink content, sink symbol or "", sink rows) -/
 def split (ca : Cache Bytes) (values : List (Bytes × Bytes)) :
